@@ -130,7 +130,7 @@ Fixpoint as_const_n (O : oracles) (c : cfg) (m : nat) (e : expr) : fres :=
   | ETuple es => match acl es with LConst vs => FConst (VTuple vs) | LImp => FImp | LOpq => FOpq end
   | EDict kvs =>
       match pair_consts (as_const_n O c m) kvs with
-      | PConst ps => match mk_dict [] ps with Ok d => FConst (VDict d) | Err _ => FOpq end
+      | PConst ps => match mk_dict [] ps with Ok d => FConst (VDict d) | Err _ => FImp end   (* except Exception -> Impossible (fix cf88736) *)
       | PImp => FImp
       | POpq => FOpq
       end
